@@ -305,6 +305,13 @@ pub fn rv_cells(v: &RV) -> Vec<BigInt> {
 
 pub fn coq_case(d: &Done) -> String {
     let none = "(None, [SilentMissing; SilentMissing])".to_string();
+    if d.case.const_expr.is_none() {
+        return format!(
+            "{}, [{}]",
+            d.case.coq_head,
+            d.runs.iter().map(|(_, r)| r.coq()).collect::<Vec<_>>().join("; ")
+        );
+    }
     format!(
         "{}, {}, {}, [{}]",
         d.case.coq_head,
@@ -329,17 +336,30 @@ pub fn eval_chunk(dir: &str, idx: usize, cases: Vec<Case>) -> Result<Vec<Done>, 
     let mut twins = String::from(PRELUDE);
     let mut seen_fn: BTreeMap<String, ()> = BTreeMap::new();
     for (k, c) in cases.iter().enumerate() {
+        let f = if c.feature { crate::cases::FEATURES } else { "" };
+        for (name, def) in &c.items {
+            if seen_fn.insert(format!("item:{name}"), ()).is_none() {
+                writeln!(consts, "{def}").unwrap();
+                writeln!(twins, "{def}").unwrap();
+            }
+        }
         if let Some((name, def, call)) = &c.constfn {
             if seen_fn.insert(name.clone(), ()).is_none() {
-                writeln!(consts, "{def}").unwrap();
+                writeln!(consts, "{f}{def}").unwrap();
             }
-            writeln!(consts, "const B_{k}: {} = {};", c.rty, call).unwrap();
+            writeln!(consts, "{f}const B_{k}: {} = {};", c.rty, call).unwrap();
         }
-        writeln!(consts, "const A_{k}: {} = {};", c.rty, c.lit_expr).unwrap();
-        if seen_fn.insert(c.twin.0.clone(), ()).is_none() {
-            writeln!(twins, "{}", c.twin.1).unwrap();
+        if let Some(e) = &c.const_expr {
+            writeln!(consts, "{f}const A_{k}: {} = {};", c.rty, e).unwrap();
         }
-        writeln!(twins, "fn g_{k}() -> {} {{ {} }}", c.rty, c.lit_expr).unwrap();
+        if let Some((name, def)) = &c.twin {
+            if seen_fn.insert(name.clone(), ()).is_none() {
+                writeln!(twins, "{f}{def}").unwrap();
+            }
+        }
+        if let Some((params, body, _)) = &c.g {
+            writeln!(twins, "{f}fn g_{k}({params}) -> {} {{ {body} }}", c.rty).unwrap();
+        }
     }
     let cdir = format!("{dir}/c{idx:03}");
     std::fs::create_dir_all(&cdir).map_err(|e| e.to_string())?;
@@ -406,15 +426,18 @@ pub fn eval_chunk(dir: &str, idx: usize, cases: Vec<Case>) -> Result<Vec<Done>, 
         let sierra = replacer.apply(&sierra);
         let runner = SierraCasmRunner::new(sierra, None, Default::default(), None)
             .map_err(|e| format!("twins_{idx}: runner: {e:?}"))?;
+        let to_args = |v: &Vec<BigInt>| -> Vec<Arg> {
+            v.iter().map(|v| Arg::Value(Felt252::from(((v % &p) + &p) % &p))).collect()
+        };
         for (k, c) in cases.iter().enumerate() {
-            let args: Vec<Arg> = c
-                .args
-                .iter()
-                .map(|v| Arg::Value(Felt252::from(((v % &p) + &p) % &p)))
-                .collect();
-            for (fname, args, vname) in
-                [(format!("::{}", c.twin.0), args, names.0), (format!("::g_{k}"), vec![], names.1)]
-            {
+            let mut fns: Vec<(String, Vec<Arg>, &'static str)> = vec![];
+            if let Some((name, _)) = &c.twin {
+                fns.push((format!("::{name}"), to_args(&c.args), names.0));
+            }
+            if let Some((_, _, gargs)) = &c.g {
+                fns.push((format!("::g_{k}"), to_args(gargs), names.1));
+            }
+            for (fname, args, vname) in fns {
                 let r = vcommon::catch(std::panic::AssertUnwindSafe(|| {
                     let f = runner.find_function(&fname).map_err(|e| format!("{e:?}"))?;
                     runner
@@ -444,9 +467,14 @@ pub fn eval_chunk(dir: &str, idx: usize, cases: Vec<Case>) -> Result<Vec<Done>, 
         .enumerate()
         .map(|(k, case)| {
             let c2v = if case.constfn.is_some() { c2.remove(&k) } else { None };
-            // order: args/fold, args/nofold, lit/fold, lit/nofold
+            // order: args/fold, args/nofold, lit/fold, lit/nofold (those that exist)
             let mut rs = std::mem::take(&mut runs[k]);
-            rs.swap(1, 2);
+            rs.sort_by_key(|(n, _)| match *n {
+                "args/fold" => 0,
+                "args/nofold" => 1,
+                "lit/fold" => 2,
+                _ => 3,
+            });
             Done { c1: c1.remove(&k), c2: c2v, runs: rs, case }
         })
         .collect())
